@@ -61,7 +61,14 @@ UTargets(w) == Frames \cup Leaves \cup (IF Cyclic THEN Wraps ELSE {v \in Wraps :
                       \cup (IF AllowNone THEN {NoneItem} ELSE {})
 ETargets(f) == ETargetSet
 
-URes(w) ==
+\* generator-type objects are unwrapped by stackscope's own glue, whose results have a fixed shape:
+\* finished -> (None, None); suspended -> (own frame, awaited object); running -> a StackSlice that yields the
+\* own frame followed by the frames it is currently calling.  Wrapper NF+i owns frame i.
+Own(w) == w - NF
+GenRes(w) == {[k |-> "seq", xs |-> <<NoneItem, NoneItem>>]}
+        \cup {[k |-> "seq", xs |-> <<Own(w), x>>] : x \in (UTargets(w) \ {Own(w)}) \cup {NoneItem}}
+        \cup {[k |-> "iter", xs |-> <<Own(w), f>>] : f \in Frames \ {Own(w)}}
+URes(w) == IF w \in GenT THEN GenRes(w) ELSE
      (IF "none" \in UKinds THEN {[k |-> "none", xs |-> <<>>]} ELSE {})
 \cup (IF "raise" \in UKinds THEN {[k |-> "raise", xs |-> <<>>]} ELSE {})
 \cup (IF "one" \in UKinds THEN {[k |-> "one", xs |-> <<a>>] : a \in UTargets(w) \ {NoneItem}} ELSE {})
@@ -129,16 +136,18 @@ Ref(x) == Proc(UFull, EFull, Flat(UFull, x, 0), Fuel)
 RefFrames(x) == Ref(x)[1]
 
 ---------------------------------------------------------------------------
-Init == /\ U = <<>> /\ E = <<>> /\ C = <<>>
-        /\ root \in Roots
+InitWith(r0) ==
+        /\ U = <<>> /\ E = <<>> /\ C = <<>>
+        /\ root = r0
         /\ toU = << [x |-> root, d |-> 0, o |-> BetterOrigin(root, NoneItem), w |-> FALSE] >>
         /\ toE = <<>> /\ loops = 0 /\ errors = <<>> /\ out = <<>> /\ leaf = NoneV
         /\ pc = "unwrap" /\ faults = 0
+Init == \E r0 \in Roots : InitWith(r0)
 
 RECURSIVE DropQ(_, _)
 DropQ(s, d) == IF s = <<>> THEN <<>> ELSE IF s[1].d >= d THEN DropQ(Tail(s), d) ELSE s
 
-Irreducible(h) == toE' = Append(toE, [x |-> h.x, d |-> h.d, o |-> h.o]) /\ toU' = Tail(toU) /\ loops' = 0
+Irreducible(h) == toE' = Append(toE, [x |-> h.x, d |-> h.d, o |-> NoneItem]) /\ toU' = Tail(toU) /\ loops' = 0
 
 (* lines 123-138: a frame (raw or already wrapped) moves to the elaboration queue *)
 PopFrame ==
@@ -150,13 +159,14 @@ PopFrame ==
   /\ UNCHANGED <<U, E, C, root, errors, out, leaf, pc, faults>>
 
 (* lines 139-177: one call of unwrap_stackitem and what follows from it *)
-Unwrap ==
+UnwrapWith(r) ==
   /\ pc = "unwrap" /\ toU # <<>> /\ Head(toU).x \notin Frames
   /\ LET h == Head(toU) IN
      IF h.x \notin Wraps
      THEN \* leaves and None: the default hook returns None
+          /\ r = UDefault
           /\ Irreducible(h) /\ UNCHANGED <<U, errors, faults>>
-     ELSE \E r \in (IF h.x \in DOMAIN U THEN {U[h.x]} ELSE URes(h.x)) :
+     ELSE /\ (h.x \in DOMAIN U) => (r = U[h.x])          \* hooks are functions of the item
           /\ (h.x \notin DOMAIN U /\ IsFault(r)) => faults < MaxFaults
           /\ faults' = IF h.x \notin DOMAIN U /\ IsFault(r) THEN faults + 1 ELSE faults
           /\ U' = (IF h.x \in DOMAIN U THEN U ELSE U @@ (h.x :> r))
@@ -174,9 +184,13 @@ Unwrap ==
                          /\ toE' = toE
   /\ UNCHANGED <<E, C, root, out, leaf, pc>>
 
+Unwrap == \E r \in (IF toU = <<>> \/ Head(toU).x \notin Wraps THEN {UDefault}
+                     ELSE IF Head(toU).x \in DOMAIN U THEN {U[Head(toU).x]} ELSE URes(Head(toU).x)) : UnwrapWith(r)
+
 (* the inner while ends only when to_unwrap is empty (observation O1) *)
 ToElab == /\ pc = "unwrap" /\ toU = <<>> /\ pc' = "elab"
-          /\ UNCHANGED <<U, E, C, root, toU, toE, loops, errors, out, leaf, faults>>
+          /\ loops' = 0        \* the counter restarts with every pass of the outer loop (line 119)
+          /\ UNCHANGED <<U, E, C, root, toU, toE, errors, out, leaf, faults>>
 
 (* lines 179-187 *)
 ReachLeaf ==
@@ -186,22 +200,22 @@ ReachLeaf ==
   /\ UNCHANGED <<U, E, C, root, toU, toE, loops, errors, out, faults>>
 
 (* lines 189-244: contexts, elaborate_frame, yield, and the edit of the remainder *)
-Elab ==
+ElabWith(cf, r) ==       \* cf: number of errors raised by context analysis / fill_context for this frame
   /\ pc = "elab" /\ toE # <<>> /\ Head(toE).x \in Frames
   /\ LET h == Head(toE)  f == h.x  d == h.d  rest == Tail(toE)
          hasNext == rest # <<>>
      IN
-     \E cf \in (IF ~CtxFaults THEN {FALSE} ELSE IF f \in DOMAIN C THEN {C[f]} ELSE BOOLEAN) :
-     \E r \in (IF f \in DOMAIN E THEN {E[f]} ELSE ERes(f)) :
        LET newE == f \notin DOMAIN E /\ IsFault(r)
-           newC == CtxFaults /\ f \notin DOMAIN C /\ cf
+           newC == f \notin DOMAIN C /\ cf > 0
            nf == (IF newE THEN 1 ELSE 0) + (IF newC THEN 1 ELSE 0)
        IN
+       /\ (f \in DOMAIN E) => (r = E[f])
+       /\ (f \in DOMAIN C) => (cf = C[f])
        /\ faults + nf <= MaxFaults
        /\ faults' = faults + nf
        /\ E' = (IF f \in DOMAIN E THEN E ELSE E @@ (f :> r))
-       /\ C' = (IF CtxFaults /\ f \notin DOMAIN C THEN C @@ (f :> cf) ELSE C)
-       /\ errors' = (IF cf THEN Append(errors, <<"ctx", f>>) ELSE errors)
+       /\ C' = (IF f \notin DOMAIN C THEN C @@ (f :> cf) ELSE C)
+       /\ errors' = errors \o [i \in 1..cf |-> <<"ctx", f>>]
                        \o (IF r.k = "raise" THEN << <<"elab", f>> >> ELSE <<>>)
        /\ out' = Append(out, [f |-> f, o |-> h.o, unhid |-> (r.k = "raise")])
        /\ leaf' = leaf /\ loops' = loops
@@ -227,6 +241,10 @@ Elab ==
                           LET ni == [q[1] EXCEPT !.d = d] IN
                           toU' = pushAll(others) \o <<ni>> \o Tail(q) /\ pc' = "unwrap"
   /\ UNCHANGED <<U, root>>
+
+Elab == \E cf \in (IF ~CtxFaults THEN {0} ELSE {0, 1}) :
+        \E r \in (IF toE = <<>> \/ Head(toE).x \notin Frames THEN {EDefault}
+                  ELSE IF Head(toE).x \in DOMAIN E THEN {E[Head(toE).x]} ELSE ERes(Head(toE).x)) : ElabWith(cf, r)
 
 Next == PopFrame \/ Unwrap \/ ToElab \/ ReachLeaf \/ Elab
 Spec == Init /\ [][Next]_vars
